@@ -318,6 +318,25 @@ func c03Check(c c03Case) *Violation {
 		if pi := guard(func() { out = gts.Slice(seq, c.I, c.N) }); pi != nil {
 			return panicViolation(name, pi)
 		}
+		// the same record is sliced again (two other windows, then the same one): the first result is judged below after
+		// these calls, and the repeated slice must equal it (a record serves any number of slices, e.g. gts extract)
+		{
+			var again gts.Sequence
+			first := resultDump(out)
+			if pi := guard(func() {
+				gts.Slice(seq, 0, (c.L+1)/2)
+				gts.Slice(seq, c.L/2, c.L)
+				again = gts.Slice(seq, c.I, c.N)
+			}); pi != nil {
+				return panicViolation(name+" (sliced again)", pi)
+			}
+			if now := resultDump(out); now != first {
+				return viol("result-later", "%s: the result changed when the same record was sliced again:\nwas %s\nnow %s", name, firstDiffContext(first, now), firstDiffContext(now, first))
+			}
+			if rep := resultDump(again); rep != first {
+				return viol("result-later", "%s: slicing the same record a second time gives another result:\n1st %s\n2nd %s", name, firstDiffContext(first, rep), firstDiffContext(rep, first))
+			}
+		}
 		if !wrap {
 			wantBytes = append([]byte{}, orig[s:e]...)
 			pm = func(l Loc) Loc { return sliceLoc(l, c.L, s, e) }
